@@ -154,8 +154,11 @@ impl Number {
             }
             Ok(self.powi(exp))
         } else if num == one {
-            let exp: Option<i64> = den.as_int();
-            self.root(exp.unwrap() as i32)
+            let exp = den
+                .as_int()
+                .and_then(|den| <i32 as std::convert::TryFrom<i64>>::try_from(den).ok())
+                .ok_or_else(|| "Exponent is too small".to_string())?;
+            self.root(exp)
         } else if !self.dimless() {
             Err("Exponentiation must result in integer dimensions".to_string())
         } else {
